@@ -200,7 +200,7 @@ def main(tier, seed):
                      % ((6, 4) if tier == "quick" else (8, 6))],
         required_stats=("lifecycle_states", "retractions", "second_retractions",
                         "cancellations"),
-        chunk=1, budget_s=200 if tier == "quick" else 2400, confirm_job=confirm_job)
+        chunk=1, budget_s=200 if tier == "quick" else 900, confirm_job=confirm_job)
     e1 = _e1props.main("C06", tier, seed, finish=False)
     combine_and_finish("C06", tier, seed, [("E2-lifecycle", e2), ("E1-runs", e1)])
 
